@@ -100,10 +100,11 @@ func onceGuards(c *an.Ctx, rule string) {
 				// fn must be a closure passed to (*sync.Once).Do on a field of the context, and called nowhere else
 				okOnce := false
 				other := false
-				if par := fn.Parent(); par != nil {
+				// every place the function is used as a value: closures made from it and bound method values
+				for _, par := range p.Funcs {
 					an.EachInstr(par, func(in ssa.Instruction) {
 						mc, ok := in.(*ssa.MakeClosure)
-						if !ok || mc.Fn != fn || mc.Referrers() == nil {
+						if !ok || p.Unwrap(mc.Fn.(*ssa.Function)) != fn || mc.Referrers() == nil {
 							return
 						}
 						for _, use := range *mc.Referrers() {
@@ -115,7 +116,13 @@ func onceGuards(c *an.Ctx, rule string) {
 						}
 					})
 				}
-				c.Check(okOnce && !other && fn.Parent() != nil, rule, key, fn.Pos(), "runs only inside sync.Once.Do on the context", "the "+f.field+" commands are not confined to a sync.Once.Do on the context: overlapping tasks can run them twice or get past them before they finished")
+				// and it is not called directly from anywhere
+				for _, site := range p.CallSitesOf(fn) {
+					if _, isDo := an.IsCallTo(site, "(*sync.Once).Do"); !isDo {
+						other = true
+					}
+				}
+				c.Check(okOnce && !other, rule, key, fn.Pos(), "runs only inside sync.Once.Do on the context", "the "+f.field+" commands are not confined to a sync.Once.Do on the context: overlapping tasks can run them twice or get past them before they finished")
 				if f.field == "up" {
 					// failing command → startupError := err
 					var svc *ssa.Call
@@ -200,7 +207,15 @@ func downRules(c *an.Ctx, r *runnerRoles, rule string) {
 		c.Bad(rule, an.Short(f)+":register", f.Pos(), "a resolved context is never registered for cleanup")
 	} else {
 		val := store.(ssa.CallInstruction).Common().Args[2]
-		c.Check(strings.Contains(an.FieldProv(val), "TaskRunner.contexts"), rule, an.Short(f)+":register(value)", store.Pos(), "the registered value is the context looked up", "the registered value is not the resolved context: "+an.FieldProv(val))
+		okVal := false
+		for _, src := range p.DeepSources(val, 2, false) {
+			if strings.Contains(an.FieldProv(src), "TaskRunner.contexts[") {
+				if in, ok := src.(ssa.Instruction); ok && in.Parent() == store.Parent() && an.Dominates(in, store) {
+					okVal = true
+				}
+			}
+		}
+		c.Check(okVal, rule, an.Short(f)+":register(value)", store.Pos(), "the registered value is the context looked up", "the registered value is not the context looked up in TaskRunner.contexts: "+an.FieldProv(val))
 	}
 	// Finish → Range callback → Down, returns true
 	fin := r.finish
